@@ -271,6 +271,14 @@ def run(facts):
             (res.ok if okc else res.bad)(key, r.loc(), "calls the helper with (self, additional, _)" if okc else
                                          "the reservation helper is not called with the caller's own (self, additional): A15 cannot relate n to the request")
         verdicts = judge(facts, b0, b0.id, ctx_false=ctxs.get("try_reclaim", ()), ctx_alloc=ctxs.get("reserve", ()))
+        if any(not v[1] for v in verdicts):
+            # before reporting: the same function with its crate-local helpers inlined (a decision moved into a classifier fn)
+            from .inline import views
+            for ib in views(facts, b0, keep_names=("rebuild_vec", "offset_from", "vptr", "release_shared", "is_unique", "get_vec_pos", "set_vec_pos", "kind")):
+                alt = judge(facts, ib, b0.id, ctx_false=ctxs.get("try_reclaim", ()), ctx_alloc=ctxs.get("reserve", ()))
+                if all(v[1] for v in alt):
+                    verdicts = [(k, ok, t + " (with helpers inlined)", e) for (k, ok, t, e) in alt]
+                    break
     else:
         verdicts = []
         roots = reserve_roots(facts)
